@@ -311,12 +311,12 @@ func (f *fsEnv) legacyCase(store []string, rounds int, verbose bool) (res fsResu
 				}
 				if err != nil || file != created[i] {
 					res.failf("C13/case/getExistingName/"+class, "store holds manifests %q; the name %s (%s) is canonicalised by getExistingName to %q and ParseNamedManifest then opens %q (%s); expected it to address %q", store, q(v), spelling(v, s), e.String(), relTo(root, file), errText(err), relTo(root, created[i]))
-					break
+					continue
 				}
 				lp, err := server.ParseModelPath(e.String()).GetManifestPath()
 				if err != nil || lp != created[i] {
 					res.failf("C13/case/ParseModelPath/"+class, "store holds manifests %q; %s (%s) -> getExistingName -> %q -> ParseModelPath.GetManifestPath = %q (%s); expected %q", store, q(v), spelling(v, s), e.String(), relTo(root, lp), errText(err), relTo(root, created[i]))
-					break
+					continue
 				}
 			}
 		}
